@@ -43,6 +43,9 @@ func C09(c *vf.Check) {
 		exp := normEvents(tc.Ops, keys...)
 		o := outs[i]
 		got := ""
+		if o.Status == "notrun" {
+			continue
+		}
 		if o.Status != "ok" {
 			got = "driver status: " + o.Status + " " + vf.Trunc(o.Crash, 400)
 		} else {
